@@ -29,6 +29,8 @@ inductive LErr where
   | valueError
   | indexError
   | keyError (k : Name)
+  | typeError
+  | notImplementedError
 deriving DecidableEq, Repr, Inhabited
 
 /-- an unsuffixed name (parameter, unlabelled variable, derived quantity) -/
@@ -292,6 +294,51 @@ def buildRxnI (lv : List (Name × Nat)) (maps : List (Name × List Int)) (r : BR
 def buildModelI (b : Base) (lv : List (Name × Nat)) (maps : List (Name × List Int))
     (initLabels : List (Name × List Nat)) : Except LErr LModel := do
   let rxns ← b.rxns.mapM (buildRxnI lv maps)
+  pure { pars := b.pars
+         vars := buildVars lv initLabels b.vars
+         totals := lv.map fun kn => (plain (kn.1 ++ "__total"), binaryLabels kn.1 kn.2)
+         derived := b.derived.map fun kd => (kd.1, { fn := kd.2.fn, args := kd.2.args.map (totalName lv) })
+         rxns := rxns.flatten }
+
+/-! ### stoichiometric coefficients as the base model stores them (`float | Derived`) -/
+
+/-- a stoichiometric coefficient of a base reaction: a Python `int`, a `float`, or a `Derived` -/
+inductive Coef where
+  | int (v : Int)
+  | float (q : Rat)
+  | derived
+deriving DecidableEq, Repr, Inhabited
+
+/-- what `_unpack_stoichiometries` can read: it evaluates `v < 0` (a `Derived` is not ordered:
+    `TypeError`) and `[k] * -v` / `[k] * v` (a list cannot be repeated a `float` number of times:
+    `TypeError`) entry by entry; only Python `int`s pass -/
+def intCoefs : List (Name × Coef) → Except LErr (List (Name × Int))
+  | [] => .ok []
+  | (k, .int v) :: rest => do
+    let r ← intCoefs rest
+    pure ((k, v) :: r)
+  | (_, _) :: _ => .error .typeError
+
+/-- one base reaction of `build_model`'s loop when the raw coefficients of some mapped reactions are
+    given in `raw` (reactions not listed there have the integer coefficients of their `BRxn`): a
+    mapped reaction is unpacked first — `TypeError` for a non-`int` coefficient whatever the map —,
+    an unmapped reaction is passed through -/
+def buildRxnP (lv : List (Name × Nat)) (maps : List (Name × List Int))
+    (raw : List (Name × List (Name × Coef))) (r : BRxn) : Except LErr (List LRxn) :=
+  match maps.lookup r.name with
+  | none => pure [unmappedRxn lv r]
+  | some lm =>
+    match raw.lookup r.name with
+    | none => isotopomerReactionsI lv r lm
+    | some st => do
+      let ist ← intCoefs st
+      isotopomerReactionsI lv { r with stoich := ist } lm
+
+/-- `LabelMapper.build_model` with raw coefficients (this is what the driver runs) -/
+def buildModelP (b : Base) (lv : List (Name × Nat)) (maps : List (Name × List Int))
+    (raw : List (Name × List (Name × Coef))) (initLabels : List (Name × List Nat)) :
+    Except LErr LModel := do
+  let rxns ← b.rxns.mapM (buildRxnP lv maps raw)
   pure { pars := b.pars
          vars := buildVars lv initLabels b.vars
          totals := lv.map fun kn => (plain (kn.1 ++ "__total"), binaryLabels kn.1 kn.2)
